@@ -11,6 +11,7 @@ Seq11 == <<1, 1>>
 Seq1 == <<1>>
 Rates == {<<1, 2>>, <<1, 3>>, <<2, 1>>}
 RateHalf == {<<1, 2>>}
+RateNone == {}
 
 H(a, r) == hist' = Append(hist, [act |-> a, args |-> r])
 SetSeq(S) == IF S = {} THEN <<>> ELSE <<CHOOSE x \in S : TRUE>>    \* exempt sets have at most one member here
